@@ -18,6 +18,7 @@ from pest.grammar.rule import ATOMIC
 from pest.grammar.rule import COMPOUND
 from pest.grammar.rule import SILENT
 from pest.grammar.rule import SILENT_ATOMIC
+from pest.grammar.rule import BuiltInRule
 
 from .expression import Expression
 from .optimizers.inliners import inline_builtin
@@ -118,6 +119,10 @@ class Optimizer:
                 continue
 
             for name, rule in rules.items():
+                if isinstance(rule, BuiltInRule):
+                    # Built-in rule objects are shared by every parser.
+                    continue
+
                 if step.rule_predicate and not step.rule_predicate(rule, rules):
                     continue
 
